@@ -373,6 +373,9 @@ def run_check(check_id: str, tier: str, seed: int, examples_override: Optional[i
     shards = shards_override or budget.get("shards", 16)
     examples = examples_override or budget["examples"]
     shrink = budget.get("shrink", True)
+    fast_fail = bool(os.environ.get("RP2V_FAST_FAIL"))  # sensitivity runs (tools/mutants.py, tools/seeded.py): detection only, no shrinking
+    if fast_fail:
+        shrink = False
     deadline_s = float(budget.get("deadline_s", 3000 if tier == "thorough" else 600))
     known = known_for(check_id)
 
@@ -447,7 +450,7 @@ def run_check(check_id: str, tier: str, seed: int, examples_override: Optional[i
                 if res["violation"]:
                     vio = res["violation"]
                     case = vio["case"]
-                    if hasattr(mod, "minimize") and (not shrink or (isinstance(case, dict) and case.get("e2e"))):
+                    if hasattr(mod, "minimize") and not fast_fail and (not shrink or (isinstance(case, dict) and case.get("e2e"))):
                         enter_scratch()
                         try:
                             case = mod.minimize(case, vio["clause"])
